@@ -270,13 +270,19 @@ func (f *ProofFollower) step(op followOp) {
 // Followers is a leading follower and its lagging twin.
 type Followers struct {
 	Lead, Lag *ProofFollower
-	queue     []followOp
-	Depth     int // the twin catches up once this many operations are queued
-	Flushes   int
+	// Remote receives every update as JSON, decoded into one ApplyUpdate and one RevertUpdate variable that it keeps
+	// for the whole history (a subscriber behind an RPC boundary); it must hold exactly the leader's proofs.
+	Remote  *ProofFollower
+	rau     consensus.ApplyUpdate
+	rru     consensus.RevertUpdate
+	queue   []followOp
+	Depth   int // the twin catches up once this many operations are queued
+	Flushes int
 }
 
 func NewFollowers(depth int) *Followers {
-	return &Followers{Lead: &ProofFollower{Held: map[uint64]types.StateElement{}}, Lag: &ProofFollower{Held: map[uint64]types.StateElement{}}, Depth: depth}
+	return &Followers{Lead: &ProofFollower{Held: map[uint64]types.StateElement{}}, Lag: &ProofFollower{Held: map[uint64]types.StateElement{}},
+		Remote: &ProofFollower{Held: map[uint64]types.StateElement{}}, Depth: depth}
 }
 
 // StateElements lists a copy of every state element the store holds (live, spent, resolved, chain indices).
@@ -316,6 +322,31 @@ func (s *Store) StateElements() []types.StateElement {
 func (fw *Followers) push(op followOp) error {
 	fw.Lead.step(op)
 	op.digest = fw.Lead.digest()
+	// the same update through JSON into the subscriber's long-lived variables
+	rop := followOp{numLeaves: op.numLeaves, track: op.track}
+	if op.au != nil {
+		js, err := json.Marshal(*op.au)
+		if err == nil {
+			err = json.Unmarshal(js, &fw.rau)
+		}
+		if err != nil {
+			return fmt.Errorf("apply update does not pass through JSON: %v", err)
+		}
+		rop.au = &fw.rau
+	} else {
+		js, err := json.Marshal(*op.ru)
+		if err == nil {
+			err = json.Unmarshal(js, &fw.rru)
+		}
+		if err != nil {
+			return fmt.Errorf("revert update does not pass through JSON: %v", err)
+		}
+		rop.ru = &fw.rru
+	}
+	fw.Remote.step(rop)
+	if fw.Remote.digest() != op.digest {
+		return fmt.Errorf("a subscriber that receives every update as JSON, decoded into the same two variables each time, holds different proofs than the client using the update objects directly")
+	}
 	fw.queue = append(fw.queue, op)
 	if len(fw.queue) >= fw.Depth {
 		return fw.Flush()
@@ -373,4 +404,26 @@ func (fw *Followers) Verify(b *ref.Built) (int, error) {
 		}
 	}
 	return len(fw.Lead.Held), nil
+}
+
+// AgreeWith compares the leading follower (elements refreshed only through UpdateElementProof) with a store whose
+// elements are replaced from the diffs: both must hold the same proof for every leaf both know.
+func (fw *Followers) AgreeWith(st *Store) (int, error) {
+	n := 0
+	for _, se := range st.StateElements() {
+		own, ok := fw.Lead.Held[se.LeafIndex]
+		if !ok {
+			continue
+		}
+		n++
+		if len(own.MerkleProof) != len(se.MerkleProof) {
+			return n, fmt.Errorf("leaf %d: a client that only refreshes its own copy through UpdateElementProof holds a proof of %d hashes, the element taken from the diffs has %d", se.LeafIndex, len(own.MerkleProof), len(se.MerkleProof))
+		}
+		for i := range own.MerkleProof {
+			if own.MerkleProof[i] != se.MerkleProof[i] {
+				return n, fmt.Errorf("leaf %d: a client that only refreshes its own copy through UpdateElementProof holds a different proof (hash %d) than the element taken from the diffs", se.LeafIndex, i)
+			}
+		}
+	}
+	return n, nil
 }
